@@ -82,6 +82,17 @@ class History:
                     k, obs[:4], ideal[:4], aware[:4], sorted(d["flags"]), why), k)
 
     # -------------------------------------------------------------- operations
+    def wait(self, cond, quiet=0.0, timeout=8.0):
+        """Wait for an expected publish; if it never arrives the history goes on and the stale
+        diagnostics are judged by the next check (a missing publish is the server's problem)."""
+        try:
+            self.server.pump(cond, timeout, quiet=quiet)
+            return True
+        except client.Timeout:
+            self.stats["missing_publish"] = self.stats.get("missing_publish", 0) + 1
+            self.trace.append({"note": "an expected publishDiagnostics did not arrive within %.0fs" % timeout})
+            return False
+
     def write_disk(self, k, text):
         p = self.docs[k]["path"]
         with open(p, "w", encoding="utf-8") as f:
@@ -94,14 +105,24 @@ class History:
         if d["path"] and self.rng.random() < 0.7:
             self.write_disk(k, text)
         self.trace.append({"op": "didOpen", "doc": k, "text": text})
-        self.server.open(d["uri"], text, d["lang"])
+        n = self.server.n_publishes(d["uri"])
+        self.server.open(d["uri"], text, d["lang"], wait=False)
+        self.wait(lambda: self.server.n_publishes(d["uri"]) > n)
         d.update(open=True, ever=True, client_text=text, srv_text=text, env=self.env_now(k), flags=set())
 
     def op_change(self, k):
         d = self.docs[k]
         text = model.make_text(self.rng, WORDS)
-        self.trace.append({"op": "didChange", "doc": k, "text": text})
-        self.server.change(d["uri"], text)
+        n = self.server.n_publishes(d["uri"])
+        if self.rng.random() < 0.3:
+            # one notification carrying several full-text changes: the last one is the document
+            earlier = [model.make_text(self.rng, WORDS) for _ in range(self.rng.randint(1, 2))]
+            self.trace.append({"op": "didChange", "doc": k, "text": text, "earlier_changes_in_same_notification": earlier})
+            self.server.notify("textDocument/didChange", {"textDocument": {"uri": d["uri"], "version": 3}, "contentChanges": [{"text": t} for t in earlier] + [{"text": text}]})
+        else:
+            self.trace.append({"op": "didChange", "doc": k, "text": text})
+            self.server.notify("textDocument/didChange", {"textDocument": {"uri": d["uri"], "version": 3}, "contentChanges": [{"text": text}]})
+        self.wait(lambda: self.server.n_publishes(d["uri"]) > n)
         d.update(client_text=text, srv_text=text, env=self.env_now(k))
         d["flags"].discard("reorder")
         d["flags"].discard("disk-reread")
@@ -129,13 +150,17 @@ class History:
         if d["path"]:
             self.write_disk(k, d["client_text"])
         self.trace.append({"op": "didSave", "doc": k})
-        self.server.save(d["uri"])
+        n = self.server.n_publishes(d["uri"])
+        self.server.save(d["uri"], wait=False)
+        self.wait(lambda: self.server.n_publishes(d["uri"]) > n)
         self.refresh_from_disk(k)
 
     def op_close(self, k):
         d = self.docs[k]
         self.trace.append({"op": "didClose", "doc": k})
-        self.server.close(d["uri"])
+        n = self.server.n_publishes(d["uri"])
+        self.server.close(d["uri"], wait=False)
+        self.wait(lambda: self.server.n_publishes(d["uri"]) > n)
         d.update(open=False, flags=set())
 
     def op_add(self, k, user):
@@ -146,7 +171,7 @@ class History:
         self.server.command("HarperAddToUserDict" if user else "HarperAddToFileDict", [w, d["uri"]])
         # the command always republishes the document; the notification and the response travel on
         # different streams inside the server, so the publish may arrive after the response
-        self.server.pump(lambda: self.server.n_publishes(d["uri"]) > n, 30)
+        self.wait(lambda: self.server.n_publishes(d["uri"]) > n)
         if user:
             if w not in self.user_words:
                 self.user_words.append(w)
@@ -169,7 +194,8 @@ class History:
         opened = [k for k, d in self.docs.items() if d["open"]]
         before = {k: self.server.n_publishes(self.docs[k]["uri"]) for k in opened}
         self.server.notify("workspace/didChangeConfiguration", {"settings": self.server.settings})
-        self.server.pump(lambda: all(self.server.n_publishes(self.docs[k]["uri"]) > before[k] for k in opened), 60, quiet=0.3)
+        # a publish that never comes is not a harness failure: the stale diagnostics are judged below
+        self.wait(lambda: all(self.server.n_publishes(self.docs[k]["uri"]) > before[k] for k in opened), quiet=0.3)
         for k in opened:
             self.refresh_from_disk(k)
             d = self.docs[k]
@@ -186,7 +212,7 @@ class History:
         self.trace.append({"op": "didChangeWatchedFiles(Deleted)", "doc": k})
         n = self.server.n_publishes(d["uri"])
         self.server.notify("workspace/didChangeWatchedFiles", {"changes": [{"uri": d["uri"], "type": 3}]})
-        self.server.pump(lambda: self.server.n_publishes(d["uri"]) > n, 30)
+        self.wait(lambda: self.server.n_publishes(d["uri"]) > n)
         d.update(open=False, flags=set())
 
     def op_batch(self, all_perms):
@@ -314,7 +340,7 @@ def run_history(base, refbase, idx, seed, tier):
                     h.op_delete(k)
                 else:
                     h.op_close(k)
-            h.check_all("step %d (%s)" % (step, h.trace[-1]["op"]))
+            h.check_all("step %d (%s)" % (step, next((t["op"] for t in reversed(h.trace) if "op" in t), "?")))
     except (client.Timeout, client.ServerDied) as e:
         err = "history %d: %s after %r" % (idx, e, h.trace[-1] if h.trace else None)
     finally:
@@ -345,8 +371,8 @@ def run(tier, seed, scale, verif):
             for k in ("checks", "spec", "known", "not_realised", "batches"):
                 stats[k] += h.stats[k]
             stats["orders"] |= h.stats["orders"]
-            shapes.add(tuple(t["op"] for t in h.trace))
-            if len(samples) < 3 and any(t["op"] == "batch" for t in h.trace):
+            shapes.add(tuple(t.get("op", "note") for t in h.trace))
+            if len(samples) < 3 and any(t.get("op") == "batch" for t in h.trace):
                 samples.append({"history": h.trace[:6]})
             for fd in h.findings:
                 k = fd["sig"]
